@@ -87,6 +87,12 @@ func genPluginFiles(sc *Scenario) {
 		mine := map[string]bool{}
 		for k := 0; k < n; k++ {
 			pth := genPath(ps.Name, k, core, taken)
+			dyn := false
+			if len(core) > 0 && simrt.Flip("c17.path-from-module-directory", 0.2) {
+				// where a well-behaved generator puts its files: next to the root module's own
+				dyn = true
+				pth = path.Dir(core[0]) + "/" + fmt.Sprintf("gen_%s_%d.go", ps.Name, k)
+			}
 			if mine[cleanRel(pth)] {
 				continue // one plugin naming one file twice is that plugin's own business
 			}
@@ -95,7 +101,7 @@ func genPluginFiles(sc *Scenario) {
 			if other, ok := contentOf[cleanRel(pth)]; ok && simrt.Flip("c17.same-content", 0.4) {
 				content = other // two sources, one path, identical bytes (a doc.go, an empty file): still two sources
 			}
-			ps.Files = append(ps.Files, GenFile{Path: pth, Content: content})
+			ps.Files = append(ps.Files, GenFile{Path: pth, Content: content, Dyn: dyn, Base: path.Base(pth)})
 		}
 		for _, f := range ps.Files {
 			taken = append(taken, f.Path)
